@@ -12,6 +12,9 @@
 //  3. sign/verify agreement: every signature verifies with the key published for its key id and with no other key of the node;
 //  4. jwk-header monitor (jwkheader_test.go): the private half of a node-held key of every JWK key family, in every shape a caller can
 //     supply, in the jwk header of every JWS/JWT/DPoP signing entry point; the protected header of what is returned is decoded and searched.
+//  5. kid life cycle monitor (lifecycle_test.go): kids that are used, then re-pointed / removed / re-created (directly, in committed and in
+//     rolled back SQL transactions, with concurrent users) and used again through every entry point; the key each result came from must be
+//     the key the harness' own kid table designates at that moment.
 package c03
 
 import (
@@ -382,6 +385,10 @@ func TestCheck(t *testing.T) {
 		"(d) jwk-header calls (signing entry point, key family, header form): every JWS/JWT/DPoP signing entry point of crypto.KeyStore, MemoryJWTSigner and package crypto x the private half of one key of every family the node holds " +
 		"(EC P-256/P-384/P-521, RSA, OKP Ed25519 from the key directory; the in-memory signer's own key) x {jwk.Key from the raw key, jwk.Key parsed from JSON, raw crypto key, member map, raw JSON} in the jwk header; the protected header of whatever is returned " +
 		"is decoded and searched for private JWK members (d,p,q,dp,dq,qi,oth,k) and the returned text for the canary patterns, independent of the error value; non-trivial when the key is known to the scanner and the call returned. " +
+		"(e) kid life cycle uses (key store, program, stage, entry point): programs = {kid created by New | kid not registered} x warm-up {none, every entry point, single entry points (quick: 3 seeded, thorough: each)} x change " +
+		"{Link to an imported key, Link to the key of another kid, Link to another version of the same key name (versioned back end), New yielding the same kid, Delete, Delete+New, Delete+Link, Link/New inside an SQL transaction that commits / is rolled back} " +
+		"on the node's key store (fs back end; Go and HTTP entry points) and on a second crypto.Crypto over a versioned back end owned by the harness, plus seeded chains of 2-4 changes with seeded warm-ups and programs with 4 concurrent users during 6 re-pointings; " +
+		"after every change every entry point (Exists, List, Resolve, SignJWT, SignJWS, SignDPoP, Decrypt, DecryptJWE, sign_jwt, sign_jws, dpop, decrypt_jwe) runs; non-trivial when the result came from exactly the key the harness' kid table designates (or there was none and the call failed). " +
 		"OKP X25519 and oct keys (families the node cannot hold) and foreign keys over HTTP sign_jws are driven too, an echo of those is unspecified. " +
 		"Canary patterns: raw, hex (lower/upper/trimmed/colon), Go and JSON byte lists, base64url/base64 (padded, unpadded, and the two shifted alignments inside a larger base64 container), decimal, PEM body lines and DER chunk of every secret component (EC D; RSA D, primes, CRT values; Ed25519 seed); " +
 		fmt.Sprintf("patterns shorter than %d bytes are skipped to avoid coincidences. Streams are searched as emitted, with whitespace/escaped line breaks removed, and after decoding every base64url/base64/hex run (nested, depth 4).", minPatternLen))
@@ -433,6 +440,9 @@ func TestCheck(t *testing.T) {
 	h.scan("iam-flows")
 	h.phaseGoAPI(n1)
 	h.phaseJWKHeaderFamilies(n1)
+	if os.Getenv("C03_SKIP_LC") == "" {
+		h.phaseKidLifecycle(n1)
+	}
 	h.scan("go-api")
 	n2 := h.phaseDIDNuts(verbosity, env, namer)
 	h.scan("did-nuts")
